@@ -1,8 +1,14 @@
+mod c17;
+mod cli_run;
+mod cli_world;
 mod corpus;
 mod driver;
 mod edit_world;
 mod hashseam;
 mod rng;
+mod rules;
+mod sched;
+mod selftest;
 mod shrink;
 
 use driver::*;
@@ -10,6 +16,7 @@ use driver::*;
 fn sim_for(id: &str) -> Box<dyn Simulation> {
   match id {
     "C10" => Box::new(edit_world::EditSim),
+    "C17" => Box::new(c17::C17Sim),
     _ => {
       eprintln!("HARNESS-ERROR: no simulation for property {id}");
       std::process::exit(2)
@@ -24,6 +31,9 @@ fn opt(args: &[String], name: &str) -> Option<String> {
 
 fn main() {
   let args: Vec<String> = std::env::args().collect();
+  if args.len() == 2 && args[1] == "selftest" {
+    std::process::exit(selftest::main());
+  }
   if args.len() < 3 {
     eprintln!("usage: agsim check <ID> [--tier=quick|thorough] [--seed=N] [--workers=N] [--runs=N] [--secs=N] | agsim replay <ID> <file> | agsim worker <ID> ...");
     std::process::exit(2);
